@@ -42,6 +42,11 @@ CHECKS = {
     "C18": ("shadow IntervalSet judged on every LostSegmentTracker operation the destination handler issues under simulated arrival "
             "histories and fault schedules (grid, bounded-fault, chaos, synthetic-peer populations); only operations inside the "
             "property's preconditions are judged; the exhaustive-for-small-N part of the quantifier is NOT reached (DESIGN 6)", "5 C18, 6", "in-situ refinement vs shadow IntervalSet"),
+    "C08": ("every NAK PDU reaching the real source handler (from the real receiver under link faults, or synthetic with requests "
+            "around the live progress / file size, valid and invalid) judged per call: emitted File Data PDUs tile the valid "
+            "requests exactly (multiset equality), Metadata byte-identical for (0,0), invalid requests raise the library NAK "
+            "error and emit nothing outside valid requests or the file; SenderStream model checks that the original stream and "
+            "the EOF are unchanged afterwards", "5 C08", "per-call refinement + stream model"),
     "C15": ("indication model judged on every handler call in four populations; 2^4 switches per entity and 5 message variants", "5 C15", "in-situ invariant vs IndicationModel"),
 }
 NOT_BUILT = "check not built yet (work in progress, see DESIGN.md section 5)"
